@@ -499,7 +499,7 @@ def run_program(prog, mode):
                 break
         if ok:
             dump = {}
-            for x in prog['final']:
+            for x in prog['final'] + prog.get('final_views', []):
                 try:
                     dump[x] = it.observe(x)
                 except Exception as e:  # noqa
@@ -930,6 +930,7 @@ class Builder:
         elif r < 0.32:
             self.grids.append(self._grid(int(rng.integers(1, 41))))   # … or of another size (shape errors)
         self.plain = Interp('plain', self.grids)
+        self.view_obs = []    # views of a root that was updated in place afterwards: read at the end by the oracle only
         self.stmts = []
         self.info = {}        # var -> dict(level, root, view, tags=(old,new), grid)
         self.nvar = 0
@@ -1510,6 +1511,7 @@ class Builder:
             'level': self.level(e), 'tags': self.tags(e, v) if ok_val and e[0] != 'ext' else ('?', '?'),
             'root': self.info[root]['root'] if root is not None else self._newroot(),
             'view': root is not None, 'usable': ok_val,
+            'observable': root is None or (self.observable_view(e) and self.info[root].get('observable', True)),
         }
         if not ok_val:
             # tuples, lists, strings: observed once, not used as operands
@@ -1527,10 +1529,32 @@ class Builder:
                 and getattr(self.plain.env[x], 'flags', None) is not None and self.plain.env[x].flags.writeable
                 and self.kind_of_val(self.plain.env[x]) != 'b' and self.info[x]['tags'][0] != '?']
 
+    def observable_view(self, e):
+        """`e` is built from variables by basic indexing / reshape / ravel / shaped / real / imag only: whether such a value shares
+        memory with its root is decided by NumPy on the underlying data, identically for plain arrays and both Field styles"""
+        t = e[0]
+        if t == 'var':
+            return True
+        if t == 'idx':
+            return e[1] in ('at0', 'atl', 'sl', 'psl') and self.observable_view(e[3])
+        if t == 'shaped':
+            return self.observable_view(e[1])
+        if t == 'reshape':
+            return self.observable_view(e[3])
+        if t == 'ravel':
+            return self.observable_view(e[2])
+        if t == 'un' and e[1] in ('re', 'im'):
+            return self.observable_view(e[3])
+        return False
+
     def kill_views(self, x):
+        """after an in-place statement on `x`: values derived from the same memory are no longer used as operands (the
+        model's stores copy on assignment) — but they stay in the read-out of the plain / old / new oracle (`final_views`)"""
         root = self.info[x]['root']
         for y in list(self.info):
             if self.info[y]['root'] == root and self.info[y]['view']:
+                if self.info[y].get('observable') and np.ndim(self.plain.env.get(y)) >= 1:
+                    self.view_obs.append(y)
                 del self.info[y]
                 self.plain.env.pop(y, None)
 
@@ -1734,7 +1758,7 @@ class Builder:
                 res = self.add_inplace()
             if res == 'error':
                 break
-        return {'grids': self.grids, 'stmts': self.stmts, 'final': self.live()}
+        return {'grids': self.grids, 'stmts': self.stmts, 'final': self.live(), 'final_views': sorted(set(self.view_obs))}
 
 
 def gen_program(rng, ext=False, big=False):
@@ -2456,12 +2480,17 @@ def oracle(prog, plain, old, new):
         for mode, run in (('old', old), ('new', new)):
             if run[1] is None or mode in tainted:
                 continue
-            for x in prog['final']:
+            for x in prog['final'] + prog.get('final_views', []):
                 a, b = run[1].get(x), plain[1].get(x)
                 if a is None or b is None:
                     continue
                 if not same_obs_values(a, b):
                     last = [stmt_sig(s) for s in prog['stmts'] if s[0] in INPLACE_STMTS]
+                    if x in prog.get('final_views', []):
+                        bad.append(('view-read %s %s' % (mode, last[-1] if last else '-'),
+                                    'variable %d, derived from a variable that was updated in place afterwards, holds %s at the end with %s-style fields, %s on plain arrays (a view that copies, or a copy that aliases)' % (
+                                        x, short(a), mode, short(b))))
+                        break
                     bad.append(('final-read %s %s' % (mode, last[-1] if last else '-'),
                                 'variable %d read at the end holds %s with %s-style fields, the plain-array reference holds %s (stale alias or lost write)' % (x, short(a), mode, short(b))))
                     break
@@ -2508,6 +2537,7 @@ def shrink(prog, fails):
             if not ok:
                 continue
             cand['final'] = [x for x in cur['final'] if x in defined]
+            cand['final_views'] = [x for x in cur.get('final_views', []) if x in defined]
             if still(cand):
                 cur = cand
                 changed = True
@@ -3046,6 +3076,8 @@ def check_program(ctx, prog, label):
     kinds = sorted(set(stmt_sig(s).split('.')[0].split('=')[0] for s in prog['stmts']))
     errored = bool(plain[0]) and plain[0][-1][0] == 'E'
     ctx.count('programs:' + label)
+    if prog.get('final_views'):
+        ctx.count('views-read-after-update-of-their-root', len(prog['final_views']))
     ctx.count('statements', nst)
     ctx.count('n:%d' % int(np.prod(prog['grids'][0]['dims'])))
     for s in prog['stmts']:
